@@ -3,10 +3,9 @@ use cbor_event::de::Deserializer;
 use cbor_event::se::Serializer;
 use cbor_event::Serialize;
 use crate::{BootstrapWitnesses, CBORReadLen, DeserializeError, DeserializeFailure, Key, Language, NativeScripts, PlutusList, PlutusScripts, Redeemers, TransactionWitnessSet, Vkeywitnesses};
-use crate::protocol_types::{CBORSpecial, CBORType, Deserialize, opt64, TransactionWitnessSetRaw};
+use crate::protocol_types::{CBORSpecial, CBORType, Deserialize, TransactionWitnessSetRaw};
 use crate::serialization::utils::{deserilized_with_orig_bytes, merge_option_plutus_list};
 use crate::traits::NoneOrEmpty;
-use crate::utils::opt64_non_empty;
 
 impl cbor_event::se::Serialize for TransactionWitnessSet {
     fn serialize<'a, W: Write + Sized>(&self, serializer: &'a mut Serializer<W>) -> cbor_event::Result<&'a mut Serializer<W>> {
@@ -202,24 +201,35 @@ pub(super) fn serialize<'se, W: Write>(
     raw_parts: Option<&TransactionWitnessSetRaw>,
     serializer: &'se mut Serializer<W>,
 ) -> cbor_event::Result<&'se mut Serializer<W>> {
+    // A field is written when its original bytes are kept or when it is non-empty;
+    // the map length must count exactly the fields that are written.
+    fn written<T: NoneOrEmpty>(field: &Option<T>, raw: Option<&Vec<u8>>) -> u64 {
+        match field {
+            Some(field) => (raw.is_some() || !field.is_none_or_empty()) as u64,
+            None => 0,
+        }
+    }
     let mut has_plutus_v1 = false;
     let mut has_plutus_v2 = false;
     let mut has_plutus_v3 = false;
     let plutus_added_length = match &wit_set.plutus_scripts {
         Some(scripts) => {
-            has_plutus_v1 = scripts.has_version(&Language::new_plutus_v1());
-            has_plutus_v2 = scripts.has_version(&Language::new_plutus_v2());
-            has_plutus_v3 = scripts.has_version(&Language::new_plutus_v3());
+            has_plutus_v1 = scripts.has_version(&Language::new_plutus_v1())
+                || raw_parts.map_or(false, |x| x.plutus_scripts_v1.is_some());
+            has_plutus_v2 = scripts.has_version(&Language::new_plutus_v2())
+                || raw_parts.map_or(false, |x| x.plutus_scripts_v2.is_some());
+            has_plutus_v3 = scripts.has_version(&Language::new_plutus_v3())
+                || raw_parts.map_or(false, |x| x.plutus_scripts_v3.is_some());
             (has_plutus_v1 as u64) + (has_plutus_v2 as u64) + (has_plutus_v3 as u64)
         },
         _ => 0,
     };
     serializer.write_map(cbor_event::Len::Len(
-        opt64(&wit_set.vkeys)
-            + opt64_non_empty(&wit_set.native_scripts)
-            + opt64_non_empty(&wit_set.bootstraps)
-            + opt64_non_empty(&wit_set.plutus_data)
-            + opt64_non_empty(&wit_set.redeemers)
+        written(&wit_set.vkeys, raw_parts.and_then(|x| x.vkeys.as_ref()))
+            + written(&wit_set.native_scripts, raw_parts.and_then(|x| x.native_scripts.as_ref()))
+            + written(&wit_set.bootstraps, raw_parts.and_then(|x| x.bootstraps.as_ref()))
+            + written(&wit_set.plutus_data, raw_parts.and_then(|x| x.plutus_data.as_ref()))
+            + written(&wit_set.redeemers, raw_parts.and_then(|x| x.redeemers.as_ref()))
             + plutus_added_length,
     ))?;
     if let Some(field) = &wit_set.vkeys {
